@@ -478,6 +478,53 @@ func VerifC08WriteCmd() {
 	vf.Reach("end")
 }
 
+// VerifC08LongDurations: times in a MIDI file are 28-bit quantities. A document whose durations
+// do not fit — one value, several values of one instance, or consecutive rests that add up —
+// is either refused or written as a well-formed file that ends at the exact total; it is never
+// written with a 5-byte delta or with a tick count that wrapped. A piece just below the limit
+// is written.
+func VerifC08LongDurations() {
+	in, out := vf.TempPath("long-in.yml"), vf.TempPath("long-out.mid")
+	verifReset(in, out)
+	defer verifReset(in, out)
+	chord := "- chord: {degree: \"1\", name: \"7\"}\n  values: "
+	docs := []struct {
+		text  string
+		beats uint64 // total, in beats (all values are whole numbers)
+	}{
+		{chord + "[\"300000\"]\n- values: [\"1\"]\n", 300001},
+		{"- values: [\"150000\"]\n- values: [\"150000\"]\n" + chord + "[\"1\"]\n", 300001},
+		{chord + "[\"279000\"]\n- values: [\"1\"]\n", 279001},
+		{chord + "[\"5000000\"]\n", 5000000},
+		{chord + "[\"200000\", \"200000\"]\n", 400000},
+		{chord + "[\"1\"]\n- values: [\"4473925\"]\n", 4473926}, // 2^32 ticks and a bit
+	}
+	d := docs[vf.NondetIntRange("doc", 0, len(docs)-1)]
+	os.WriteFile(in, []byte(d.text), 0o644)
+	tracks := []string{"1", "2", "5"}[vf.NondetIntRange("tracks", 0, 2)]
+	vf.Assert("flags-parse", writeCmd.ParseFlags([]string{"--output", out, "--program", "0", "--track", tracks}) == nil)
+	err := writeCmd.RunE(writeCmd, []string{in})
+	writeCmd.ParseFlags([]string{"--output", "", "--track", "1"})
+	fits := d.beats*960 < 1<<28
+	if fits {
+		vf.Assert("piece-below-the-limit-is-written", err == nil)
+	}
+	if err != nil {
+		vf.Reach("refused")
+		return
+	}
+	b, rerr := os.ReadFile(out)
+	f, why := spec.ParseSMF(b)
+	vf.Assert("long-piece-written-is-well-formed", rerr == nil && f != nil && why == "")
+	if f != nil {
+		_, ends := verifAbsEvents(f)
+		for _, e := range ends {
+			vf.Assert("long-piece-ends-at-the-exact-total", uint64(e) == d.beats*960)
+		}
+	}
+	vf.Reach("written")
+}
+
 // VerifC12DebugFlag: --debug changes neither the bytes on standard output nor the outcome.
 func VerifC12DebugFlag() {
 	in := vf.TempPath("debug-in.txt")
@@ -1143,7 +1190,7 @@ func VerifC09KeyConvCommand() {
 func VerifC04HugeText() {
 	kib := vf.Param("C04.hugeKiB", 1100)
 	vf.Unwind(2000 * 1024 * kib / 1000 * 1000)
-	filler := []string{"\n", " ", "; a comment line\n"}[vf.NondetIntRange("filler", 0, 2)]
+	filler := []string{"\n", " ", "; a comment line\n"}[vf.NondetIntRange("filler", 0, vf.Param("C04.hugeFillers", 3)-1)]
 	tail := []string{"D_m/F[1/2]{k=v}", "D_m/F[1/2] ]", "D_m/F[1/"}[vf.NondetIntRange("tail", 0, 2)]
 	text := "C[1]\n" + strings.Repeat(filler, kib*1024/len(filler)) + tail
 	list, err := parseText(strings.NewReader(text))
